@@ -12,6 +12,7 @@ Part D (geometry): the corner Jacobians used by the handedness validator are inv
   translations and scale with the determinant under linear maps (positive for rotations and scalings).
 -/
 import CBV.Lemmas.C11Chain
+import CBV.Lemmas.C11Geom
 import Mathlib.Tactic.Ring
 import Mathlib.Tactic.Linarith
 import Mathlib.Algebra.Order.Field.Rat
@@ -458,5 +459,82 @@ theorem T_C11_corner_nbrs :
        ([n.1, n.2.1, n.2.2].filter (fun m =>
           (CBV.Gen.axisPairs.getD a []).any (fun p => (p.1 == c && p.2 == m) || (p.1 == m && p.2 == c)))).length) = 1 := by
   decide
+
+/-! ## Part E — handedness of the point generators that need no trigonometry, and the round solid shapes as lofts -/
+
+/-- the eight corner Jacobians of an axis-aligned block are all `dx * dy * dz` -/
+theorem T_C11_boxFrom_rightHanded (lo : V3) (dx dy dz : Rat) (hx : 0 < dx) (hy : 0 < dy) (hz : 0 < dz) :
+    rightHanded (boxFrom lo dx dy dz) = true := by
+  apply rightHanded_of_jac _ rfl
+  intro c hc
+  have hp : 0 < dx * dy * dz := by positivity
+  have : c = 0 ∨ c = 1 ∨ c = 2 ∨ c = 3 ∨ c = 4 ∨ c = 5 ∨ c = 6 ∨ c = 7 := by omega
+  rcases this with rfl | rfl | rfl | rfl | rfl | rfl | rfl | rfl <;>
+    simp only [boxFrom, cornerJac, cornerNbrs, List.getD_cons_zero, List.getD_cons_succ, triple, V3.dot, V3.cross_x,
+      V3.cross_y, V3.cross_z, V3.sub_x, V3.sub_y, V3.sub_z] <;>
+    nlinarith [hp]
+
+/-- `Box(start_point, diagonal_point)` is right-handed whichever two opposite corners are given, in whichever
+    order, as long as they differ in every coordinate (all inputs; exact arithmetic) -/
+theorem T_C11_box_rightHanded (a b : V3) (hx : a.x ≠ b.x) (hy : a.y ≠ b.y) (hz : a.z ≠ b.z) :
+    rightHanded (boxPts a b) = true :=
+  T_C11_boxFrom_rightHanded _ _ _ _ (maxR_sub_minR_pos _ _ hx) (maxR_sub_minR_pos _ _ hy) (maxR_sub_minR_pos _ _ hz)
+
+/-- non-vacuity: the diagonal given "backwards" in x and z -/
+example : rightHanded (boxPts ⟨1, 0, 2⟩ ⟨0, 3, -1⟩) = true :=
+  T_C11_box_rightHanded _ _ (by norm_num) (by norm_num) (by norm_num)
+
+/-- `Extrude(face, vector)`: a quadrilateral that is convex and counter-clockwise about its normal (all four
+    corner cross products positive), extruded by a vector with a positive component along that normal, is
+    right-handed; the in-plane components of the vector do not matter. In the plane of the face; any
+    placement follows with `T_C11_rightHanded_placed`. -/
+theorem T_C11_extrude_rightHanded (p0 p1 p2 p3 : Rat × Rat) (v : V3) (hv : 0 < v.z)
+    (h0 : 0 < cross2 p0 p1 p3) (h1 : 0 < cross2 p1 p2 p0) (h2 : 0 < cross2 p2 p3 p1) (h3 : 0 < cross2 p3 p0 p2) :
+    rightHanded (extrudePts p0 p1 p2 p3 v) = true := by
+  apply rightHanded_of_jac _ rfl
+  intro c hc
+  unfold cross2 at h0 h1 h2 h3
+  have m0 := mul_pos h0 hv
+  have m1 := mul_pos h1 hv
+  have m2 := mul_pos h2 hv
+  have m3 := mul_pos h3 hv
+  have : c = 0 ∨ c = 1 ∨ c = 2 ∨ c = 3 ∨ c = 4 ∨ c = 5 ∨ c = 6 ∨ c = 7 := by omega
+  rcases this with rfl | rfl | rfl | rfl | rfl | rfl | rfl | rfl <;>
+    simp only [extrudePts, cornerJac, cornerNbrs, List.getD_cons_zero, List.getD_cons_succ, triple, V3.dot,
+      V3.cross_x, V3.cross_y, V3.cross_z, V3.sub_x, V3.sub_y, V3.sub_z] <;>
+    nlinarith [m0, m1, m2, m3]
+
+/-- non-vacuity: a skew convex quadrilateral, sheared extrusion -/
+example : rightHanded (extrudePts (0, 0) (2, 0) (3, 2) (0, 1) ⟨5, -7, 1 / 2⟩) = true :=
+  T_C11_extrude_rightHanded _ _ _ _ _ (by norm_num) (by norm_num [cross2]) (by norm_num [cross2])
+    (by norm_num [cross2]) (by norm_num [cross2])
+
+/-- one segment of an extruded ring: inner radius `0 < r < R`, length `len > 0`, its two radial sides pointing
+    along `(c, s)` and `(c', s')` with the second turned counter-clockwise from the first by less than half a
+    turn (`c s' - s c' > 0`, the sine of the segment angle): all eight corner Jacobians are positive. This is every
+    `ExtrudedRing` with `n ≥ 3` segments (segment angle `2π/n`), with the cosines and sines as witnesses. -/
+theorem T_C11_ring_segment_rightHanded (r R len c s c' s' : Rat) (hr : 0 < r) (hR : r < R) (hl : 0 < len)
+    (hsin : 0 < c * s' - s * c') : rightHanded (ringSegPts r R len c s c' s') = true := by
+  apply rightHanded_of_jac _ rfl
+  intro k hk
+  have hd : 0 < R - r := by linarith
+  have hRp : 0 < R := by linarith
+  have e1 : 0 < (R - r) * r * len * (c * s' - s * c') := by positivity
+  have e2 : 0 < (R - r) * R * len * (c * s' - s * c') := by positivity
+  have : k = 0 ∨ k = 1 ∨ k = 2 ∨ k = 3 ∨ k = 4 ∨ k = 5 ∨ k = 6 ∨ k = 7 := by omega
+  rcases this with rfl | rfl | rfl | rfl | rfl | rfl | rfl | rfl <;>
+    simp only [ringSegPts, cornerJac, cornerNbrs, List.getD_cons_zero, List.getD_cons_succ, triple, V3.dot,
+      V3.cross_x, V3.cross_y, V3.cross_z, V3.sub_x, V3.sub_y, V3.sub_z] <;>
+    nlinarith [e1, e2]
+
+/-- non-vacuity: a segment between the directions (1, 0) and (3/5, 4/5) -/
+example : rightHanded (ringSegPts 1 2 3 1 0 (3 / 5) (4 / 5)) = true :=
+  T_C11_ring_segment_rightHanded _ _ _ _ _ _ _ (by norm_num) (by norm_num) (by norm_num) (by norm_num)
+
+/-- Cylinder, Frustum, Elbow (FourCoreDisk) and SemiCylinder (HalfDisk): the assembled probe is, vertex number by
+    vertex number, the loft of the quad map of the sketch class, and `chop_axial / chop_radial / chop_tangential`
+    chop exactly the operations `Sketch.chops` lists for axes 2 / 0 / 1 — so their choppability is the sketch
+    theorem `T_C11_choppable_sketches`, not only a fact about one probe instance -/
+theorem T_C11_round_shapes_are_lofts : ∀ ns ∈ roundShapeSketch, roundShapeIsLoft ns = true := by decide +kernel
 
 end CBV.C11
